@@ -369,6 +369,12 @@ func (s *Server) newSocket(
 		socket.close(ReasonTransportError, err)
 		return nil
 	}
+	// Close may have run between the IsClosed test in ServeHTTP and store.set above:
+	// its closeAll has then missed this socket, so close it here.
+	if s.IsClosed() {
+		socket.Close()
+		return nil
+	}
 	return socket
 }
 
